@@ -15,7 +15,7 @@ META = {
     "functions": ["typelib.serdes.decode", "typelib.serdes.load", "typelib.serdes.strload", "typelib.py.inspection.istexttype",
                   "every unmarshaller's text entry (serdes.load / serdes.decode)"],
     "bounds": {
-        "quick": "six carriers (str, bytes, bytearray, memoryview(bytes), memoryview(bytearray), a memoryview slice of a larger buffer) x catalogue core x 29 texts (look-alikes: "
+        "quick": "six carriers (str, bytes, bytearray, memoryview(bytes), memoryview(bytearray), a memoryview slice of a larger buffer) x catalogue core x 31 texts (look-alikes: "
                  "numerals, true/null/None, JSON and Python-literal containers, malformed JSON, ISO date / duration, control and non-ASCII "
                  "characters) + the JSON and repr() text of wire values assembled from pick-lists; load/strload on every string of length <= 2 "
                  "and a seed-rotated third of length 3 over a 14-character alphabet ([]{}\",:0-9a space e-acute NUL) in str and bytes; "
@@ -31,7 +31,9 @@ TEXTS = ["1", "-2", "1.5", "true", "null", "None", "[1]", "[1, 2]", '{"a": 1}', 
          "2020-01-01", "2020-01-01T00:00:00+00:00", "PT1S", "[1", '"q"',
          # digits and blanks outside ASCII (int / float / Decimal accept them), texts of exactly 16 and 36 bytes
          "\u0661\u0662", "\u00a07", "\uff11.\uff15", "1234567890123456", "not-a-uuid-at-al", "\u00e9" * 8,
-         "12345678-1234-5678-1234-567812345678"]
+         "12345678-1234-5678-1234-567812345678",
+         # all-digit texts that are also ISO 8601 basic dates (a number for one reader, a date for another)
+         "2024", "20240102"]
 # JSON text that is also a Python literal with another meaning, and literals that are not JSON
 JSONISH = ['"\\/"', '["\\ud83d\\ude00"]', '{"url":"http:\\/\\/x"}', '"\\u00e9"', "123456789012345678901234567890", "1e400",
            "-0", "1E2", '"\\n"', "[1.0, 2]", '{"a": [1, {"b": null}]}', "1_000", "0x10", "[1,]", "(1)", "'a' 'b'", "b'x'", "{1, 2}",
